@@ -53,7 +53,8 @@ class EventSnapshot:
 
     def complete(self):
         """Close and complete the snapshot."""
-        self._duration_nanos = time_ns() - self._ts_nanos
+        # never negative: the wall clock can be set back while we collect, and the wire type is unsigned
+        self._duration_nanos = max(0, time_ns() - self._ts_nanos)
 
     def add_watch_result(self, watch_result: 'WatchResult'):
         """
